@@ -4,6 +4,11 @@
 //   --prop C02 : totality + memory safety + reuse after failure (sanitizer is the
 //                main oracle; follow-up behaviour is checked against the reference)
 //   --prop C03 : value read back through the accessor API == denoted value
+#include <fcntl.h>
+#include <pthread.h>
+#include <sys/wait.h>
+#include <unistd.h>
+
 #include <cmath>
 #include <fstream>
 #include <sstream>
@@ -483,6 +488,79 @@ static std::string doc_text(uint64_t seed, const char* stream, uint64_t doc_idx,
   return jm::render(v, r, ro);
 }
 
+// ---- very deep documents: parsed and destroyed on a thread with a fixed 8 MiB stack in a forked child (the usual main-thread
+// stack limit), so that recursion depth proportional to the nesting of the text shows up as a child killed by a signal
+static vf::Counter c_vdeep("very-deep-documents-parsed-and-destroyed(8MiB-stack)"), c_deep_ok("very-deep:survived");
+struct DeepJob {
+  const std::string* text;
+  int kind;
+  int rc;
+};
+static void* deep_thread(void* a) {
+  DeepJob* j = (DeepJob*)a;
+  if (j->kind == 0) {
+    su::SimpleDoc d;
+    d.Parse(j->text->data(), j->text->size());
+    j->rc = d.HasParseError() ? 1 : 0;
+  } else {
+    su::PoolDoc d;
+    d.Parse(j->text->data(), j->text->size());
+    j->rc = d.HasParseError() ? 1 : 0;
+  }
+  return nullptr;
+}
+// 0: parsed and destroyed, 1: parse error, -sig: child killed by a signal, 100+: harness trouble
+static int deep_child(const std::string& text, int kind) {
+  fflush(nullptr);
+  pid_t pid = fork();
+  if (pid < 0) return 100;
+  if (pid == 0) {
+    alarm(300);
+    int nul = open("/dev/null", O_WRONLY);  // a sanitizer's stack-overflow report of the child must not end up in the worker's log
+    if (nul >= 0) dup2(nul, 2);
+    pthread_attr_t at;
+    pthread_attr_init(&at);
+    pthread_attr_setstacksize(&at, (size_t)8 << 20);
+    pthread_t th;
+    DeepJob j{&text, kind, 0};
+    if (pthread_create(&th, &at, deep_thread, &j)) _exit(101);
+    pthread_join(th, nullptr);
+    _exit(j.rc);
+  }
+  int st = 0;
+  while (waitpid(pid, &st, 0) < 0 && errno == EINTR) {
+  }
+  if (WIFEXITED(st)) return WEXITSTATUS(st) <= 1 || WEXITSTATUS(st) >= 100 ? WEXITSTATUS(st) : -WEXITSTATUS(st) - 1000;  // sanitizer exit codes count as death
+  return -WTERMSIG(st);
+}
+static void deep_case(uint64_t i, vf::Rng& r) {
+  static const size_t depths[] = {2000, 20000, 1000000};
+  size_t depth = depths[i % 3];
+  int kind = (int)((i / 3) % 2);     // 0: allocator that really frees, 1: pool
+  int shape = (int)((i / 6) % 3);    // arrays, objects, mixed
+  std::string t, close;
+  t.reserve(depth * 7);
+  for (size_t k = 0; k < depth; k++) {
+    bool arr = shape == 0 || (shape == 2 && r.coin());
+    if (arr) { t += "["; close += "]"; }
+    else { t += "{\"a\":"; close += "}"; }
+  }
+  t += "1";
+  t.append(close.rbegin(), close.rend());
+  c_vdeep.add();
+  vf::eval();
+  vf::distinct(vf::hash_combine(depth * 8 + kind * 4 + shape, 0xdee9));
+  std::string what = std::string(kind == 0 ? "freeing-allocator" : "pool-allocator") + ":" + (shape == 0 ? "arrays" : shape == 1 ? "objects" : "mixed");
+  vf::witness("valid text nested " + std::to_string(depth) + " deep (" + what + "), parsed and destroyed on an 8 MiB stack");
+  vf::note("very deep document");
+  int rc = deep_child(t, kind);
+  if (rc == 0) { c_deep_ok.add(); return; }
+  if (rc >= 100) { vf::count("harness:deep-child-could-not-run"); return; }
+  if (rc == 1) { vf::violation("deep-document:valid-text-rejected:" + what, "depth " + std::to_string(depth)); return; }
+  if (depth >= 1000000) vf::violation("deep-document:recursion-exhausts-8MiB-stack:depth=1000000:" + std::string(kind == 0 ? "freeing-allocator" : "pool-allocator"), what + ", child status " + std::to_string(rc));
+  else vf::violation("deep-document:child-died:depth<=20000:" + what, "depth " + std::to_string(depth) + ", child status " + std::to_string(rc));
+}
+
 #ifndef VF_FUZZ_TARGET
 int main(int argc, char** argv) {
   for (int i = 1; i + 1 < argc; i++)
@@ -558,6 +636,41 @@ int main(int argc, char** argv) {
                    oracle_selftest(t);
                  }});
   }
+  // every byte value dropped into an inter-token gap behind 0..70 blanks (the vector kernels classify gap bytes with
+  // table lookups on nibbles: one wrong table entry makes exactly one stray byte value pass as a blank)
+  S.push_back({"every_byte_in_a_gap", 256, 256, [](uint64_t i, vf::Rng& r) {
+                 static const size_t blanks[] = {0, 1, 2, 3, 5, 14, 15, 16, 17, 31, 33, 62, 63, 64, 65, 70};
+                 std::string b(1, (char)i);
+                 for (size_t k : blanks) {
+                   std::string ws;
+                   for (size_t j = 0; j < k; j++) ws += " \t\n\r"[r.below(8) ? 0 : r.below(4)];
+                   one_input("[1," + ws + b + "2]");
+                   one_input("[1" + ws + b + ",2]");
+                   one_input("{\"a\"" + ws + b + ":1}");
+                   one_input("{\"a\":" + ws + b + "1}");
+                   one_input("{\"a\":1," + ws + b + "\"b\":2}");
+                   one_input("[[]" + ws + b + "]");
+                   one_input("[" + ws + b + "]");
+                   one_input(ws + b + "[]");
+                   one_input("[]" + ws + b);
+                 }
+               }, false});
+  // unclosed openers that fill the builder's node stack (sized from the text length) to exactly its capacity, then a
+  // value of every kind and number path: the push of that value is the first one refused
+  S.push_back({"openers_filling_the_node_stack_exactly", 70, 70, [](uint64_t i, vf::Rng& r) {
+                 static const char* vals[] = {"7", "-7", "1.5", "1e23", "1e-30", "0.30000000000000004", "123456789012345678", "12345678901234567890", "-0.0", "1E400",
+                                              "9007199254740993.5", "1.7976931348623157e308", "\"s\"", "\"\\n\"", "true", "null", "[]", "{}"};
+                 static const char* tails[] = {"]", "", ",1]", "]]", ",2.2250738585072014e-308]"};
+                 size_t n = i + 1;
+                 for (const char* v : vals)
+                   for (const char* tl : tails)
+                     for (int shape = 0; shape < 3; shape++) {
+                       std::string t;
+                       for (size_t k = 0; k < n; k++) t += shape == 0 ? "[" : shape == 1 ? ((k & 1) ? "{\"a\":" : "[") : (r.below(4) ? "[" : "{\"\":");
+                       one_input(t + v + tl);
+                       one_input(t + v + "," + v + tl);
+                     }
+               }, false});
   // texts with the maximal number of values per byte (one-character scalars, no blanks, empty keys): the parser's node stack
   // is sized from the text length, so these are the valid texts that fill it to the brim; every length 2..400
   S.push_back({"densest_valid_texts", 400, 400, [](uint64_t i, vf::Rng& r) {
@@ -755,6 +868,7 @@ int main(int argc, char** argv) {
     S.push_back({"reuse_histories_simple", 1500, 100000, [](uint64_t, vf::Rng& r) { history<su::SimpleDoc>(r, "simple"); }});
     S.push_back({"reuse_histories_track", 1500, 100000, [](uint64_t, vf::Rng& r) { track_history(r); }});
     S.push_back({"user_buffer_pool", 3000, 200000, [](uint64_t, vf::Rng& r) { userbuf_case(r); }});
+    S.push_back({"very_deep_documents", 18, 18, deep_case, false});
   }
   // bundled test data (thorough): whole files and mutations of them
   if (vf::args().thorough || true) {
